@@ -128,23 +128,33 @@ Proof.
   - rewrite vary_keeps_refl, aca_same_refl. reflexivity.
 Qed.
 
-Lemma cors_handler_spec r q h : cors_spec r q h (cors_handler r q h) = true.
+Lemma hdrs_same_refl h : hdrs_same h h = true.
+Proof. unfold hdrs_same. rewrite lb_eqb_refl, aca_same_refl. reflexivity. Qed.
+Lemma cors_spec_unchanged r q h : cors_spec r q h h = true.
+Proof. unfold cors_spec. rewrite vary_keeps_refl, aca_same_refl. reflexivity. Qed.
+
+Lemma cors_handler_spec rs q h : cors_spec_rules rs q h (cors_handler rs q h) = true.
 Proof.
-  unfold cors_handler.
-  destruct (nonempty (origin_of q)) eqn:Hne; cbn [negb].
-  2:{ unfold cors_spec. rewrite vary_keeps_refl, aca_same_refl. reflexivity. }
-  destruct (is_preflight q).
-  { unfold cors_spec. rewrite vary_keeps_refl, aca_same_refl. reflexivity. }
+  unfold cors_handler, cors_spec_rules.
   destruct (q_has_rules q); cbn [negb].
-  2:{ unfold cors_spec. rewrite vary_keeps_refl, aca_same_refl. reflexivity. }
-  apply grant_nonpreflight_spec. exact Hne.
+  2:{ destruct (negb (nonempty (origin_of q))); [apply hdrs_same_refl|].
+      destruct (is_preflight q); apply hdrs_same_refl. }
+  destruct (find_rule rs) as [r|].
+  - destruct (nonempty (origin_of q)) eqn:Hne; cbn [negb]; [|apply cors_spec_unchanged].
+    destruct (is_preflight q); [apply cors_spec_unchanged|].
+    apply grant_nonpreflight_spec. exact Hne.
+  - destruct (negb (nonempty (origin_of q))); [apply hdrs_same_refl|].
+    destruct (is_preflight q); apply hdrs_same_refl.
 Qed.
-Lemma preflight_handler_spec r q h' :
-  preflight_handler r q = Some h' -> is_preflight q = true /\ cors_spec r q empty_hdrs h' = true.
+Lemma preflight_handler_spec rs q h' :
+  preflight_handler rs q = Some h' ->
+  is_preflight q = true /\ q_has_rules q = true /\
+  exists r, find_rule rs = Some r /\ cors_spec r q empty_hdrs h' = true.
 Proof.
   unfold preflight_handler. destruct (is_preflight q) eqn:Hp; cbn [negb]; [|discriminate].
-  destruct (q_has_rules q); cbn [negb]; [|discriminate]. intros H; injection H as <-.
-  split; [reflexivity|]. apply grant_preflight_spec.
+  destruct (q_has_rules q); cbn [negb]; [|discriminate].
+  destruct (find_rule rs) as [r|]; [|discriminate]. intros H; injection H as <-.
+  split; [reflexivity|]. split; [reflexivity|]. exists r. split; [reflexivity|]. apply grant_preflight_spec.
   unfold is_preflight in Hp. apply andb_true_iff in Hp. destruct Hp as [Hp _].
   apply andb_true_iff in Hp. apply Hp.
 Qed.
@@ -167,61 +177,106 @@ Proof.
   - right. apply andb_true_iff in HC. destruct HC as [Hc1 Hc2]. split; [exact Hc1|apply lb_eqb_eq; exact Hc2].
 Qed.
 
-Lemma only_allowed_handler r q h :
-  aca_same h (cors_handler r q h) = false ->
-  origin_allowed (r_origins r) (origin_of q) = true
-  /\ h_acao (cors_handler r q h) = [expected_acao (r_origins r) (origin_of q)]
-  /\ (h_acac (cors_handler r q h) = h_acac h \/ (r_cred r = true /\ h_acac (cors_handler r q h) = [s_true])).
-Proof. apply spec_only_allowed. apply cors_handler_spec. Qed.
-Lemma only_allowed_preflight r q h' :
-  preflight_handler r q = Some h' -> aca_same empty_hdrs h' = false ->
-  origin_allowed (r_origins r) (origin_of q) = true
+Lemma hdrs_same_aca a b : hdrs_same a b = true -> aca_same a b = true.
+Proof. unfold hdrs_same. intros H. apply andb_true_iff in H. apply H. Qed.
+
+(* anything granted comes from the FIRST matching rule of the product and obeys it *)
+Lemma only_allowed_handler rs q h :
+  aca_same h (cors_handler rs q h) = false ->
+  exists r, q_has_rules q = true /\ find_rule rs = Some r
+  /\ origin_allowed (r_origins r) (origin_of q) = true
+  /\ h_acao (cors_handler rs q h) = [expected_acao (r_origins r) (origin_of q)]
+  /\ (h_acac (cors_handler rs q h) = h_acac h \/ (r_cred r = true /\ h_acac (cors_handler rs q h) = [s_true])).
+Proof.
+  intros Hd. pose proof (cors_handler_spec rs q h) as Hs. unfold cors_spec_rules in Hs.
+  destruct (q_has_rules q).
+  - destruct (find_rule rs) as [r|].
+    + exists r. split; [reflexivity|]. split; [reflexivity|]. apply (spec_only_allowed _ _ _ _ Hs Hd).
+    + apply hdrs_same_aca in Hs. congruence.
+  - apply hdrs_same_aca in Hs. congruence.
+Qed.
+Lemma only_allowed_preflight rs q h' :
+  preflight_handler rs q = Some h' -> aca_same empty_hdrs h' = false ->
+  exists r, find_rule rs = Some r
+  /\ origin_allowed (r_origins r) (origin_of q) = true
   /\ h_acao h' = [expected_acao (r_origins r) (origin_of q)]
   /\ (h_acac h' = [] \/ (r_cred r = true /\ h_acac h' = [s_true])).
-Proof. intros H. apply preflight_handler_spec in H. destruct H as [_ H]. apply (spec_only_allowed _ _ _ _ H). Qed.
+Proof.
+  intros H Hd. apply preflight_handler_spec in H. destruct H as [_ [_ [r [Hr H]]]].
+  exists r. split; [exact Hr|]. apply (spec_only_allowed _ _ _ _ H Hd).
+Qed.
+(* no matching rule, no rules for the product, no / disallowed Origin: the response header is left exactly as it was *)
+Lemma denied_unchanged rs q h :
+  (q_has_rules q = false \/ find_rule rs = None
+   \/ (exists r, find_rule rs = Some r /\ origin_allowed (r_origins r) (origin_of q) = false)) ->
+  cors_handler rs q h = h.
+Proof.
+  unfold cors_handler. intros H.
+  destruct (nonempty (origin_of q)) eqn:Hne; cbn [negb]; [|reflexivity].
+  destruct (is_preflight q); [reflexivity|].
+  destruct H as [-> | [-> | [r [-> Hr]]]]; cbn [negb]; try reflexivity.
+  - destruct (q_has_rules q); reflexivity.
+  - destruct (q_has_rules q); cbn [negb]; [|reflexivity].
+    unfold grant_nonpreflight. destruct (match_origin (origin_of q) r) as [mo|] eqn:E; [|reflexivity].
+    apply match_origin_sound in E. destruct E as [Hm _]. unfold origin_allowed in Hr. rewrite Hne, Hm in Hr. discriminate.
+Qed.
 
-(* Vary: whenever the module grants (origin allowed by the rule and the callback applies), the Vary header after the
-   callback is the old one plus possibly one more line, and lists Origin (or "*"). *)
-Lemma vary_origin_handler r q h :
-  aca_same h (cors_handler r q h) = false ->
-  (exists extra, h_vary (cors_handler r q h) = h_vary h ++ extra)
-  /\ vary_lists_origin (h_vary (cors_handler r q h)) = true.
+(* Vary: whenever the module grants, the Vary header afterwards is the old one plus possibly one more line, and lists
+   Origin (or "*"). *)
+Lemma vary_origin_handler rs q h :
+  aca_same h (cors_handler rs q h) = false ->
+  (exists extra, h_vary (cors_handler rs q h) = h_vary h ++ extra)
+  /\ vary_lists_origin (h_vary (cors_handler rs q h)) = true.
 Proof.
   unfold cors_handler.
   destruct (negb (nonempty (origin_of q))); [rewrite aca_same_refl; discriminate|].
   destruct (is_preflight q); [rewrite aca_same_refl; discriminate|].
   destruct (negb (q_has_rules q)); [rewrite aca_same_refl; discriminate|].
+  destruct (find_rule rs) as [r|]; [|rewrite aca_same_refl; discriminate].
   unfold grant_nonpreflight. destruct (match_origin (origin_of q) r); [|rewrite aca_same_refl; discriminate].
   intros _. cbn [h_vary]. split; [apply add_vary_extends|apply add_vary_lists_origin].
 Qed.
-Lemma vary_origin_granted r q h :
+Lemma vary_origin_granted rs r q h :
   nonempty (origin_of q) = true -> is_preflight q = false -> q_has_rules q = true ->
-  origin_allowed (r_origins r) (origin_of q) = true ->
-  let h' := cors_handler r q h in
+  find_rule rs = Some r -> origin_allowed (r_origins r) (origin_of q) = true ->
+  let h' := cors_handler rs q h in
   h_acao h' = [expected_acao (r_origins r) (origin_of q)]
   /\ (exists extra, h_vary h' = h_vary h ++ extra) /\ vary_lists_origin (h_vary h') = true.
 Proof.
-  intros Hne Hp Hr Ha. unfold cors_handler. rewrite Hne, Hp, Hr. cbn [negb].
+  intros Hne Hp Hr Hf Ha. unfold cors_handler. rewrite Hne, Hp, Hr, Hf. cbn [negb].
   unfold grant_nonpreflight. rewrite (match_origin_complete _ _ Ha). cbn [h_acao h_vary].
   split; [reflexivity|]. split; [apply add_vary_extends|apply add_vary_lists_origin].
 Qed.
-Lemma vary_origin_preflight r q h' :
-  preflight_handler r q = Some h' -> aca_same empty_hdrs h' = false -> vary_lists_origin (h_vary h') = true.
+Lemma vary_origin_preflight rs q h' :
+  preflight_handler rs q = Some h' -> aca_same empty_hdrs h' = false -> vary_lists_origin (h_vary h') = true.
 Proof.
   unfold preflight_handler. destruct (negb (is_preflight q)); [discriminate|].
-  destruct (negb (q_has_rules q)); [discriminate|]. intros H; injection H as <-.
+  destruct (negb (q_has_rules q)); [discriminate|].
+  destruct (find_rule rs) as [r|]; [|discriminate]. intros H; injection H as <-.
   unfold grant_preflight. destruct (match_origin (origin_of q) r); [|rewrite aca_same_refl; discriminate].
   intros _. cbn [h_vary]. apply add_vary_lists_origin.
+Qed.
+(* first match wins: rules after the first matching one have no influence *)
+Lemma first_match_wins pre r post q h :
+  forallb (fun mr => negb (fst mr)) pre = true ->
+  cors_handler (pre ++ (true, r) :: post) q h = cors_handler [(true, r)] q h
+  /\ preflight_handler (pre ++ (true, r) :: post) q = preflight_handler [(true, r)] q.
+Proof.
+  intros Hpre.
+  assert (Hf : find_rule (pre ++ (true, r) :: post) = Some r).
+  { induction pre as [|[m r0] pre IH]; [reflexivity|]. cbn [forallb fst] in Hpre.
+    apply andb_true_iff in Hpre. destruct Hpre as [Hm Hp]. apply negb_true_iff in Hm. subst m. cbn. apply IH. exact Hp. }
+  unfold cors_handler, preflight_handler. rewrite Hf. split; reflexivity.
 Qed.
 
 (* ---- the executable property holds of the model on every well-formed input ---- *)
 Lemma prop_C52_of_model i : wf_C52 i = true -> prop_C52 i (run_C52 i) = true.
 Proof.
   unfold wf_C52, prop_C52, run_C52. destruct (dec_in i) as [[[[r q] h] k]|] eqn:E; [intros _|discriminate].
-  destruct (negb (rule_ok r)); [apply val_eqb_refl|].
+  destruct (negb (rules_ok r)); [apply val_eqb_refl|].
   assert (Hk : k = 0 \/ k = 1).
   { unfold dec_in in E. destruct i as [| |[|a [|b [|c [|[kk| |] [|]]]]]]; try discriminate.
-    destruct (dec_rule a); [|discriminate]. destruct (dec_req b); [|discriminate]. destruct (dec_hdrs c); [|discriminate].
+    destruct (dec_rules a); [|discriminate]. destruct (dec_req b); [|discriminate]. destruct (dec_hdrs c); [|discriminate].
     destruct ((kk =? 0) || (kk =? 1)) eqn:Ek; [|discriminate]. injection E as _ _ _ <-.
     apply orb_true_iff in Ek. destruct Ek as [Ek|Ek]; apply Z.eqb_eq in Ek; auto. }
   destruct Hk as [-> | ->]; cbn [Z.eqb].
@@ -229,26 +284,28 @@ Proof.
     unfold enc_hdrs in *. rewrite Hd. cbn. apply cors_handler_spec.
   - destruct (preflight_handler r q) as [h'|] eqn:Ep.
     + pose proof (dec_enc_hdrs h') as Hd. unfold enc_hdrs in *. rewrite Hd.
-      apply preflight_handler_spec in Ep. destruct Ep as [-> ->]. reflexivity.
+      apply preflight_handler_spec in Ep. destruct Ep as [-> [Hr [r0 [Hf Hs]]]].
+      unfold cors_spec_rules. rewrite Hr, Hf, Hs. reflexivity.
     + reflexivity.
 Qed.
 
 (* ---- non-vacuity witnesses ---- *)
 Definition ex_rule : rule := mkRule [bs "http://a.example"%string] true [] [] [] None.
+Definition ex_rule_star : rule := mkRule [bs "*"%string] false [] [] [] None.
 Definition ex_req : req := mkReq (bs "GET"%string) [bs "http://a.example"%string] [] true.
 Definition ex_rsp : hdrs := mkHdrs [bs "Accept-Encoding"%string; bs "Cookie , User-Agent"%string] [] [] [] [] [] [].
 Lemma ex_grant :
   rule_ok ex_rule = true /\
-  cors_handler ex_rule ex_req ex_rsp =
+  cors_handler [(false, ex_rule_star); (true, ex_rule); (true, ex_rule_star)] ex_req ex_rsp =
     mkHdrs [bs "Accept-Encoding"%string; bs "Cookie , User-Agent"%string; bs "Origin"%string] [bs "http://a.example"%string] [bs "true"%string] [] [] [] []
-  /\ aca_same ex_rsp (cors_handler ex_rule ex_req ex_rsp) = false.
+  /\ aca_same ex_rsp (cors_handler [(false, ex_rule_star); (true, ex_rule); (true, ex_rule_star)] ex_req ex_rsp) = false.
 Proof. vm_compute. repeat split. Qed.
 Definition ex_req_other : req := mkReq (bs "GET"%string) [bs "http://evil.example"%string] [] true.
 Lemma ex_deny : origin_allowed (r_origins ex_rule) (origin_of ex_req_other) = false
-  /\ cors_handler ex_rule ex_req_other ex_rsp = ex_rsp.
+  /\ cors_handler [(false, ex_rule_star); (true, ex_rule); (true, ex_rule_star)] ex_req_other ex_rsp = ex_rsp.
 Proof. vm_compute. split; reflexivity. Qed.
 Definition ex_pre : req := mkReq (bs "OPTIONS"%string) [bs "http://a.example"%string] [bs "PUT"%string] true.
 Lemma ex_preflight :
-  preflight_handler (mkRule [bs "%origin"%string] false [] [bs "PUT"%string; bs "GET"%string] [] (Some 600)) ex_pre =
+  preflight_handler [(true, mkRule [bs "%origin"%string] false [] [bs "PUT"%string; bs "GET"%string] [] (Some 600))] ex_pre =
   Some (mkHdrs [bs "Origin"%string] [bs "http://a.example"%string] [] [bs "PUT,GET"%string] [] [bs "600"%string] []).
 Proof. vm_compute. reflexivity. Qed.
